@@ -3,7 +3,7 @@
    text, and therefore the response-level statements hold with no hypothesis
    about the executor. *)
 From PyGql Require Import Exec.ResponseModel Spec.ResponseSpec Exec.ResponseCheck Proofs.ResponseProofs.
-From PyGql Require Import Spec.ExecSpec Proofs.ExecTopProofs.
+From PyGql Require Import Spec.ExecSpec Proofs.ExecProofs.
 From PyGql Require Import Exec.ResponseExec.
 From Coq Require Import Lia FinFun.
 
@@ -72,6 +72,38 @@ Section ErrObl.
         destruct r1; inversion H; subst; simpl; rewrite ?map_app, ?app_nil_r; reflexivity.
     Qed.
 
+    Lemma items_partial_obl (f : path -> pv -> result) (fe : path -> pv -> list error)
+          (fo fp : path -> pv -> list path) :
+      (forall p' x r, f p' x = Ok r -> map e_path (snd r) = fo p' x) ->
+      (forall p' x, map e_path (fe p' x) = fp p' x) ->
+      forall items p i,
+        map e_path (items_partial f fe p i items) = obl_items_partial f fo fp p i items.
+    Proof.
+      intros Hf Hfe. induction items as [|x items IH]; intros p i; simpl; [reflexivity|].
+      destruct (f (p ++ [PIdx i]) x) as [r| | |] eqn:E; try apply Hfe.
+      rewrite map_app, (Hf _ _ _ E), IH. reflexivity.
+    Qed.
+
+    Lemma partial_obl nodes : forall t p v,
+      map e_path (complete_value_partial sch tyres sub_exec nodes t p v) =
+      obl_value_partial sch tyres sub_exec sub_obl nodes t p v.
+    Proof.
+      induction t as [n|t IH|t IH]; intros p v; simpl; try reflexivity; [|apply IH].
+      destruct v; try reflexivity; simpl;
+        apply items_partial_obl; try (intros; apply IH); intros p' x r Hr; apply value_obl; exact Hr.
+    Qed.
+
+    Lemma cfield_obl nodes t p v r :
+      complete_field sch tyres sub_exec nodes t p v = Ok r ->
+      map e_path (snd r) = obl_cfield sch tyres sub_exec sub_obl nodes t p v.
+    Proof.
+      unfold complete_field, obl_cfield.
+      destruct (complete_value sch tyres sub_exec nodes t p v) as [r0| |k q|k] eqn:E; try discriminate.
+      - intros H; inversion H; subst. apply value_obl; exact E.
+      - destruct (Nat.eqb k REJ_COERCION); [|discriminate].
+        intros H; inversion H; subst. simpl. rewrite map_app, partial_obl. reflexivity.
+    Qed.
+
     Lemma field_obl tname parent k fd nodes p r :
       resolve_field sch coerce_args world tyres sub_exec tname parent k fd nodes p = Ok r ->
       map e_path (snd r) = obl_field sch coerce_args world tyres sub_exec sub_obl tname parent k fd nodes p.
@@ -79,9 +111,9 @@ Section ErrObl.
       unfold resolve_field, obl_field. destruct nodes as [|node nodes]; [discriminate|].
       destruct (coerce_args fd node) as [args| | |]; try discriminate.
       - destruct k; try discriminate.
-        + destruct (world p parent tname (f_name fd) args); try discriminate; try (apply value_obl).
+        + destruct (world p parent tname (f_name fd) args); try discriminate; try (apply cfield_obl).
           intros H; inversion H; reflexivity.
-        + apply value_obl.
+        + apply cfield_obl.
       - intros H; inversion H; reflexivity.
     Qed.
 
@@ -260,6 +292,37 @@ Section ExecInText.
         apply sels_ok_locs; exact Hn.
     Qed.
 
+    Lemma items_partial_in_text (f : path -> pv -> result) (fe : path -> pv -> list error) :
+      (forall p' x r, f p' x = Ok r -> errs_in_text len (snd r)) ->
+      (forall p' x, errs_in_text len (fe p' x)) ->
+      forall items p i, errs_in_text len (items_partial f fe p i items).
+    Proof.
+      intros Hf Hfe. induction items as [|x items IH]; intros p i; simpl; [constructor|].
+      destruct (f (p ++ [PIdx i]) x) as [r| | |] eqn:E; try apply Hfe.
+      apply Forall_app. split; [eapply Hf; exact E|apply IH].
+    Qed.
+
+    Lemma partial_in_text nodes : sels_ok len nodes = true -> forall t p v,
+      errs_in_text len (complete_value_partial sch tyres sub_exec nodes t p v).
+    Proof.
+      intros Hn. induction t as [n|t IH|t IH]; intros p v; simpl; try constructor; [|apply IH].
+      destruct v; simpl; try solve [apply Forall_nil];
+        (apply items_partial_in_text;
+         [intros p' x r Hr; exact (value_in_text nodes Hn _ _ _ _ Hr)|intros; apply IH]).
+    Qed.
+
+    Lemma cfield_in_text nodes t p v r :
+      sels_ok len nodes = true ->
+      complete_field sch tyres sub_exec nodes t p v = Ok r -> errs_in_text len (snd r).
+    Proof.
+      intros Hn. unfold complete_field.
+      destruct (complete_value sch tyres sub_exec nodes t p v) as [r0| |k q|k] eqn:E; try discriminate.
+      - intros H; inversion H; subst. eapply value_in_text; [exact Hn|exact E].
+      - destruct (Nat.eqb k REJ_COERCION); [|discriminate].
+        intros H; inversion H; subst. simpl. apply Forall_app. split; [apply partial_in_text; exact Hn|].
+        constructor; [reflexivity|constructor].
+    Qed.
+
     Lemma field_in_text tname parent k fd nodes p r :
       sels_ok len nodes = true ->
       resolve_field sch coerce_args world tyres sub_exec tname parent k fd nodes p = Ok r ->
@@ -271,9 +334,9 @@ Section ExecInText.
       destruct (coerce_args fd node) as [args| | |]; try discriminate.
       - destruct k; try discriminate.
         + destruct (world p parent tname (f_name fd) args); try discriminate;
-            try (apply value_in_text; exact Hn).
+            try (apply cfield_in_text; exact Hn).
           intros H; inversion H; subst. simpl. constructor; [exact Hl|constructor].
-        + apply value_in_text; exact Hn.
+        + apply cfield_in_text; exact Hn.
       - intros H; inversion H; subst. simpl. constructor; [exact Hl|constructor].
     Qed.
 
@@ -485,7 +548,7 @@ Theorem exec_errors_are_obligations sch coerce_args world tyres cfuel fuel d opn
   execute sch coerce_args world tyres cfuel fuel d opname vs root = Ok (dd, es) ->
   let obl := obligations sch coerce_args world tyres cfuel fuel d opname vs root in
   map e_path es = obl /\ NoDup obl /\
-  forall q, In q obl -> q <> [] /\ at_path dd q = Some PNone.
+  forall q, In q obl -> q <> [] /\ null_on_path dd q.
 Proof.
   intros Hs H. destruct (execute_ok_inv _ _ _ _ _ _ _ _ _ _ _ H) as (k & sels & rt & _ & He & Ho).
   cbv zeta. rewrite Ho. pose proof (sel_obl _ _ _ _ _ _ _ _ _ _ _ _ _ He) as Hobl. simpl in Hobl.
@@ -493,7 +556,9 @@ Proof.
   rewrite <- Hobl. split; [reflexivity|]. split; [exact Hn|].
   intros q Hq. apply in_map_iff in Hq as [e [<- He']]. rewrite Forall_forall in Hw.
   destruct (Hw e He') as [q' [Hq' Hat]]. simpl in Hq'. rewrite Hq'. split; [|exact Hat].
-  intro Hnil. rewrite Hnil in Hat. simpl in Hat. apply Hnn. congruence.
+  intro Hnil. rewrite Hnil in Hat. destruct Hat as (q1 & q2 & Hq12 & Hat).
+  symmetry in Hq12. apply app_eq_nil in Hq12. destruct Hq12 as [-> _]. simpl in Hat.
+  apply Hnn. congruence.
 Qed.
 
 Lemma pipeline_exec_at_exec doc fr dd es :
@@ -514,7 +579,7 @@ Theorem null_error_match_exec doc fr sch coerce_args world tyres cfuel fuel d op
   let obl := map conv_path (obligations sch coerce_args world tyres cfuel fuel d opname vs root) in
   null_error_match obl r /\
   (forall q, In q obl ->
-     (exists data, response_data r = Some data /\ jget data q = Some JNull) /\
+     (exists data q1 q2, response_data r = Some data /\ q = q1 ++ q2 /\ jget data q1 = Some JNull) /\
      count_path q (map error_path (response_errors r)) = 1) /\
   (forall p, In (Some p) (map error_path (response_errors r)) -> In p obl).
 Proof.
@@ -541,8 +606,9 @@ Proof.
   cbv zeta. split; [|split].
   - intros p dd' Hin Hd _. apply Hcount; exact Hin.
   - intros q Hq. split; [|apply Hcount; exact Hq].
-    exists (pv_to_json dd). split; [exact Ed|].
-    apply in_map_iff in Hq as [q0 [<- Hq0]]. destruct (Hat _ Hq0) as [_ Hnull].
+    apply in_map_iff in Hq as [q0 [<- Hq0]]. destruct (Hat _ Hq0) as [_ (q1 & q2 & Hq12 & Hnull)].
+    exists (pv_to_json dd), (conv_path q1), (conv_path q2). split; [exact Ed|].
+    split; [subst q0; unfold conv_path; apply map_app|].
     apply (at_path_jget _ _ _ Hnull).
   - intros p Hp. rewrite Ee, Hpaths, <- (map_map err_path nonempty_path), Herrp in Hp.
     apply in_map_iff in Hp as [x [Hx Hin]]. apply in_map_iff in Hin as [q [<- Hq]].
